@@ -17,7 +17,8 @@ C  code -> spec: Name.to_str / to_canonical_uri / Component.to_str / to_canonica
    Name.to_bytes outputs on the enumerated components and on random larger names (0..8 components, types
    1..65535, arbitrary bytes, digests, typed numbers 0..2^64-1, values up to 300 bytes) are parsed back by
    the reference INSIDE TLC (NameUriJudge); ordering / equality / is_prefix matrices of random name sets are
-   compared with NameLess / PrefixByComponents; Name.is_prefix is called in all nine combinations of argument
+   compared with NameLess / PrefixByComponents; arbitrary URI strings with raw non-ASCII characters (= their
+   UTF-8 bytes in the reference) read by Name.from_str / normalize must give the reference's name; Name.is_prefix is called in all nine combinations of argument
    forms (component list / wire / URI on either side), also on names crossing the 253-byte Name length boundary.
 """
 import json, os, time, traceback
@@ -120,7 +121,7 @@ def replay_comp(rec):
             yield 'Component.to_number', 'short', ex or 'wrong-number', 'to_number(%r) -> %r' % (enc, ex or got)
     for f in rec['forms']:
         text = txt(f['s'])
-        if f['k'] != 'raw':
+        if f['k'] not in ('raw', 'rawU'):      # Component.from_str takes escaped text only
             got, ex = _try(Component.from_str, text)
             n += 1
             if ex or bytes(got) != enc:
@@ -368,6 +369,20 @@ def record_esc(s):
     return {'k': 'esc', 'raw': codes(s), 'esc': codes(esc), 'lib': lib}
 
 
+def _lib_name(call, s):
+    Name, Component = _lib()
+    got, ex = _try(call, s)
+    if ex:
+        return {'k': 'err', 'n': []}
+    return {'k': 'ok', 'n': [{'t': Component.get_type(c), 'v': list(bytes(Component.get_value(c)))} for c in got]}
+
+
+def record_uri(s):
+    """an arbitrary Name URI string (raw non-ASCII characters allowed) read by Name.from_str / Name.normalize"""
+    Name, Component = _lib()
+    return {'k': 'uri', 'raw': codes(s), 'lib': _lib_name(Name.from_str, s), 'norm': _lib_name(Name.normalize, s)}
+
+
 def record_pairs(jnames):
     r = {'k': 'pairs', 'names': jnames}
     r.update(matrices(jnames))
@@ -524,6 +539,32 @@ def rand_long_related(rng):
     return [stem, stem + [big], stem + [big, tail], stem + [sib], [big], stem[:1], stem + [tail], []]
 
 
+UNI_WORDS = ['Алек', 'Bölter', 'x²', 'Σπυρίδων', '٣', '١٢٣', 'e\u0301', 'é', '名前', '😀', 'ß', 'ǅ', '①', 'Ⅷ', 'ａ１', '½',
+             'naïve', 'Ω', 'ñ', '한글', 'i̇', '\u00a0', 'a\u200db', '·', 'º', 'ª', '𝟘', '𐐀']
+
+
+def rand_uri_text(rng):
+    """Name URI strings as a user types them: raw non-ASCII characters (letters, digits, marks, symbols) as whole
+    components and inside components, mixed with ASCII, typed/shorthand prefixes, escapes and every slash pattern"""
+    def piece():
+        x = rng.random()
+        if x < 0.30:
+            return rng.choice(UNI_WORDS)
+        if x < 0.50:
+            return ''.join(rng.choice(UNI_WORDS + ['a', 'Z', '7', 'abc', '42']) for _ in range(rng.randint(2, 3)))
+        if x < 0.62:
+            return rng.choice(['32=', '8=', '253=', '65535=']) + rng.choice(UNI_WORDS)
+        if x < 0.72:
+            return rng.choice(UNI_WORDS) + rng.choice([' ', '-', '.', '_', '~', ':', '%41', '%C3%A9', '+', '@']) + rng.choice(UNI_WORDS + ['x'])
+        if x < 0.80:
+            return ''
+        if x < 0.90:
+            return rng.choice(['a', 'abc', 'A1', '42', 'seg=7', 'v=300', 'sha256digest=00ff', '..', '.', 'a b'])
+        return rand_text(rng).replace('/', '')
+    body = '/'.join(piece() for _ in range(rng.choice([0, 1, 1, 2, 2, 3, 4])))
+    return rng.choice(['/', '/', '/', '']) + body + rng.choice(['', '', '', '/'])
+
+
 ESC_POOL = ['a', 'B', '7', '-', '.', '_', '~', '=', '%', '%2', '%2F', '%zz', '%41', '/', ' ', ':', '?', '#', '\t',
             'é', '名', '😀', 'seg', 'seg=', 'off=', 'v=', 't=', 'seq=', 'sha256digest=', 'params-sha256=', '8=',
             '32=', '0=', '65535=', '65536=', '253=', '12', 'ab', 'AB', '0f', '\x00', '\x7f', '+', '..']
@@ -564,11 +605,15 @@ FN_OF_CLAUSE = {'to_str': 'Name.to_str', 'canon': 'Name.to_canonical_uri', 'cano
                 'cstr': 'Component.to_str', 'ccanon': 'Component.to_canonical_uri', 'wire': 'Name.to_bytes',
                 'esc_changes_component': 'Component.escape_str', 'esc_incomplete': 'Component.escape_str',
                 'from_str': 'Name.normalize[str]', 'from_str_refused': 'Name.normalize[str]',
+                'uri_from_str': 'Name.from_str', 'uri_from_str_refused': 'Name.from_str',
+                'uri_normalize': 'Name.normalize(str)', 'uri_normalize_refused': 'Name.normalize(str)',
                 'less': 'order(list-of-bytes)', 'vless': 'order(name-value-bytes)', 'eq': 'equality',
                 'prefix': 'Name.is_prefix', 'cless': 'order(bytes(component))'}
 
 
 def input_class(rec):
+    if rec['k'] == 'uri':
+        return 'raw-non-ascii' if any(b >= 128 for b in rec['raw']) else 'general'
     if rec.get('alias'):
         return 'after-caller-mutation'
     if rec['k'] == 'name':
@@ -598,6 +643,8 @@ def report_rejected(ctx, recs, rejected, stage):
 def describe(rec):
     if rec['k'] == 'name':
         return 'name %s: to_str=%r canonical=%r' % (json.dumps(rec['n']), txt(rec['to_str']), txt(rec['canon']))
+    if rec['k'] == 'uri':
+        return 'URI %r: from_str=%s normalize=%s' % (txt(rec['raw']), json.dumps(rec['lib']), json.dumps(rec['norm']))
     if rec['k'] == 'esc':
         return 'text %r: escape_str=%r library=%s' % (txt(rec['raw']), txt(rec['esc']), json.dumps(rec['lib']))
     return json.dumps({k: rec[k] for k in ('names', 'comps') if k in rec})[:600]
@@ -613,7 +660,7 @@ def run(ctx):
                        'ndn.encoding.Name / Component (no "additional periods" rule, as documented)',
                        'Python bytes/list comparison is lexicographic']
     t0 = time.time()
-    nr = ctx.pick(14, 30)
+    nr = ctx.pick(15, 32)
     nq = ctx.pick(4, 7)
     pool = ThreadPoolExecutor(8)
     try:
@@ -642,6 +689,12 @@ def _run(ctx, pool, t0, nr, nq):
         for _ in range(ctx.pick(300, 3000)):
             n = rand_name(rng, allow_odd=True)
             rnd.append(safe(ctx, record_name_aliased, n, {'k': 'name', 'alias': True, 'n': n}))
+        for w in UNI_WORDS:             # every non-ASCII word as a whole component, as first / middle / last
+            for t in ('/' + w, w, '/a/' + w + '/b', '/' + w + '/' + w + '/', '/8=' + w, '/' + w + 'x/y' + w):
+                rnd.append(safe(ctx, record_uri, t, {'k': 'uri', 'raw': codes(t)}))
+        for _ in range(ctx.pick(800, 8000)):
+            t = rand_uri_text(rng)
+            rnd.append(safe(ctx, record_uri, t, {'k': 'uri', 'raw': codes(t)}))
         for _ in range(ctx.pick(1200, 12000)):
             t = rand_text(rng)
             rnd.append(safe(ctx, record_esc, t, {'k': 'esc', 'raw': codes(t)}))
@@ -771,6 +824,8 @@ def replay(ctx, path):
                 rec = record_name_aliased(inp['n']) if inp.get('alias') else record_name(inp['n'])
             elif inp['k'] == 'esc':
                 rec = record_esc(txt(inp['raw']))
+            elif inp['k'] == 'uri':
+                rec = record_uri(txt(inp['raw']))
             elif inp['k'] == 'pairs':
                 rec = record_pairs(inp['names'])
             else:
